@@ -1400,8 +1400,11 @@ func (c *Cluster) pin(
 		return pin, false, errors.New("bad pin object")
 	}
 
-	// Handle pin updates when the option is set
-	if update := pin.PinUpdate; update != cid.Undef && !update.Equals(pin.Cid) {
+	// Handle pin updates when the option is set. Re-pins triggered by
+	// repinFromPeer (non-empty blacklist) carry the stored options of an
+	// existing pin, which may include PinUpdate: those must be
+	// re-allocated like any other pin, not re-created from their source.
+	if update := pin.PinUpdate; update != cid.Undef && !update.Equals(pin.Cid) && len(blacklist) == 0 {
 		pin, err := c.PinUpdate(ctx, update, pin.Cid, pin.PinOptions)
 		return pin, true, err
 	}
